@@ -8,6 +8,7 @@ package time // import "go.starlark.net/lib/time"
 import (
 	"errors"
 	"fmt"
+	"math/big"
 	"sort"
 	"time"
 
@@ -316,7 +317,9 @@ func (d Duration) Binary(op syntax.Token, y starlark.Value, side starlark.Side) 
 			if y == 0 {
 				return nil, fmt.Errorf("%s division by zero", d.Type())
 			}
-			return starlark.MakeInt64(x.Nanoseconds() / time.Duration(y).Nanoseconds()), nil
+			// Divide as big integers: MinInt64 // -1 does not fit in int64.
+			q := new(big.Int).Quo(big.NewInt(x.Nanoseconds()), big.NewInt(time.Duration(y).Nanoseconds()))
+			return starlark.MakeBigInt(q), nil
 		}
 
 	case syntax.STAR:
